@@ -42,6 +42,7 @@ const (
 	FNegLen   = "neglen"   // negative length prefix                              (raw)
 	FJunk     = "junk"     // well-formed response whose SASL payload is garbage  (auth steps)
 	FClose    = "close"    // connection closed instead of a response
+	FSilent   = "silent"   // no response at all, connection left open (not part of the enumeration)
 )
 
 // Journal is what the broker saw on one connection.
@@ -158,6 +159,8 @@ func serve(c net.Conn, sc *Script, j *Journal) {
 		case FClose:
 			drain()
 			return false
+		case FSilent:
+			return true
 		}
 		_, err := c.Write(b)
 		return err == nil
@@ -176,6 +179,8 @@ func serve(c net.Conn, sc *Script, j *Journal) {
 		case FClose:
 			drain()
 			return false
+		case FSilent:
+			return true
 		}
 		var s [4]byte
 		binary.BigEndian.PutUint32(s[:], uint32(len(payload)))
